@@ -1,11 +1,9 @@
 package rules
 
 import (
-	"fmt"
 	"go/ast"
 	"go/token"
 	"go/types"
-	"strings"
 
 	"golang.org/x/tools/go/cfg"
 	"golang.org/x/tools/go/packages"
@@ -95,10 +93,12 @@ type c15Fn struct {
 	dom  map[*cfg.Block]map[*cfg.Block]bool
 	defs map[types.Object][]ast.Expr  // every definition/assignment of a local; nil entry = not a plain 1:1 value
 	tups map[types.Object]c15TupleDef // locals assigned by `…, x, … := call`
+	zero map[types.Object]int         // declarations without a value (`var err error`): number of such entries in defs
 	par  map[ast.Node]ast.Node
 
 	loops     []*c15Loop
 	loopsDone bool
+	predMemo  map[ast.Stmt]bool
 }
 
 func c15NewWorld(r *core.R) *c15World {
@@ -158,6 +158,7 @@ func (f *c15Fn) computeDefs() {
 	info := f.w.info
 	f.defs = map[types.Object][]ast.Expr{}
 	f.tups = map[types.Object]c15TupleDef{}
+	f.zero = map[types.Object]int{}
 	add := func(lhs ast.Expr, rhs ast.Expr) {
 		if o := objOf(info, lhs); o != nil {
 			f.defs[o] = append(f.defs[o], rhs)
@@ -196,6 +197,11 @@ func (f *c15Fn) computeDefs() {
 					rhs = x.Values[i]
 				}
 				add(nm, rhs)
+				if len(x.Values) == 0 {
+					if o := info.Defs[nm]; o != nil {
+						f.zero[o]++
+					}
+				}
 			}
 		case *ast.UnaryExpr:
 			// &x of a plain local: the local may be written through the pointer
@@ -245,1286 +251,33 @@ func (f *c15Fn) singleDef(o types.Object) ast.Expr {
 	return d[0]
 }
 
-func (f *c15Fn) name() string { return f.fi.Name() }
-
-// ---------------------------------------------------------------- call environments
-
-// c15Env says in which function an expression is written and how that function was reached.
-type c15Env struct {
-	fn     *c15Fn
-	bind   map[types.Object]c15Bound // parameter / receiver -> argument expression
-	parent *c15Env                   // the environment of the calling function
-	call   *ast.CallExpr             // the call in parent.fn that leads here
-	lex    *c15Env                   // for a function literal: the environment it was written in (captured variables)
-}
-
-// c15Bound is an argument expression together with the environment it is written in. For a direct call that is
-// the caller; for a call through a function value (`apply(u)` with apply bound to the method value `w.applyUpdate`)
-// the receiver is written where the method value was formed, the arguments where the call is.
-type c15Bound struct {
-	expr ast.Expr
-	env  *c15Env
-}
-
-func (w *c15World) rootEnv(f *c15Fn) *c15Env { return &c15Env{fn: f} }
-
-func (e *c15Env) root() *c15Env {
-	for e.parent != nil {
-		e = e.parent
+// soleAssignment returns the only value ever assigned to a variable that otherwise just has its zero value (a named
+// result, or `var x T` without a value), provided that assignment dominates the use at pos.
+func (f *c15Fn) soleAssignment(o types.Object, pos token.Pos) ast.Expr {
+	ds := f.defs[o]
+	zero := f.zero[o]
+	if isResult := f.isParam(o) && !f.isInput(o); !isResult && zero == 0 {
+		return nil // neither a named result (implicit zero value) nor declared without a value
 	}
-	return e
-}
-
-func (e *c15Env) depth() int {
-	n := 0
-	for x := e; x.parent != nil; x = x.parent {
-		n++
-	}
-	return n
-}
-
-// scope returns the environment in which object ob, mentioned in env.fn, has to be interpreted: env itself, or for
-// a variable captured by a function literal the environment the literal was written in.
-func (e *c15Env) scope(ob types.Object) *c15Env {
-	for e.lex != nil && ob != nil && !(e.fn.fi.Decl.Pos() <= ob.Pos() && ob.Pos() < e.fn.fi.Decl.End()) {
-		e = e.lex
-	}
-	return e
-}
-
-// lookup returns the argument bound to parameter ob of env.fn.
-func (e *c15Env) lookup(ob types.Object) (c15Bound, bool) {
-	if e == nil || ob == nil {
-		return c15Bound{}, false
-	}
-	b, ok := e.bind[ob]
-	return b, ok && b.env != nil
-}
-
-// childEnv binds the receiver and the parameters of callee to the argument expressions of a direct call.
-// Parameters that the callee reassigns are not bound.
-func (w *c15World) childEnv(env *c15Env, call *ast.CallExpr, callee *c15Fn) *c15Env {
-	ce := &c15Env{fn: callee, bind: map[types.Object]c15Bound{}, parent: env, call: call}
-	if sel, ok := ast.Unparen(call.Fun).(*ast.SelectorExpr); ok {
-		if s := w.info.Selections[sel]; s != nil && s.Kind() == types.MethodVal {
-			w.bindRecv(ce, c15Bound{expr: sel.X, env: env})
-		}
-	}
-	w.bindArgs(ce, env, call)
-	return ce
-}
-
-func (w *c15World) bindRecv(ce *c15Env, recv c15Bound) {
-	fd := ce.fn.fi.Decl
-	if fd.Recv != nil && len(fd.Recv.List) == 1 && len(fd.Recv.List[0].Names) == 1 {
-		if o := w.info.Defs[fd.Recv.List[0].Names[0]]; o != nil && len(ce.fn.defs[o]) == 0 {
-			ce.bind[o] = recv
-		}
-	}
-}
-
-func (w *c15World) bindArgs(ce *c15Env, env *c15Env, call *ast.CallExpr) {
-	callee := ce.fn
-	sig := callee.fi.Obj.Type().(*types.Signature)
-	i := 0
-	for _, fld := range callee.fi.Decl.Type.Params.List {
-		for _, nm := range fld.Names {
-			variadic := sig.Variadic() && i == sig.Params().Len()-1
-			if i < len(call.Args) && !variadic && !call.Ellipsis.IsValid() {
-				if o := w.info.Defs[nm]; o != nil && len(callee.defs[o]) == 0 {
-					ce.bind[o] = c15Bound{expr: call.Args[i], env: env}
-				}
-			}
-			i++
-		}
-	}
-}
-
-// calleeOf resolves the function of package osm that `call` (written in env.fn) invokes, and the environment of
-// its body: a direct call; or a call through a function value that is a parameter bound at the call site of env.fn
-// or a local with a single definition, when the value is a method value (`w.applyUpdate`), the name of a function,
-// or a function literal. The callee is "inlined" with the value bound: its receiver / captured variables are
-// interpreted where the value was formed, its arguments where the call is.
-func (w *c15World) calleeOf(env *c15Env, call *ast.CallExpr) (*c15Fn, *c15Env) {
-	if f := w.samePkgCallee(call); f != nil {
-		return f, w.childEnv(env, call, f)
-	}
-	if tv, ok := w.info.Types[call.Fun]; ok && tv.IsType() {
-		return nil, nil
-	}
-	if env.depth() > 6 {
-		return nil, nil
-	}
-	fenv, fe := w.resolveFuncValue(env, call.Fun)
-	switch x := fe.(type) {
-	case *ast.SelectorExpr:
-		s := w.info.Selections[x]
-		if s == nil || s.Kind() != types.MethodVal {
-			return nil, nil
-		}
-		fn, _ := s.Obj().(*types.Func)
-		if fn == nil || fn.Pkg() != w.pk.Types {
-			return nil, nil
-		}
-		f := w.fn(fn)
-		if f == nil {
-			return nil, nil
-		}
-		ce := &c15Env{fn: f, bind: map[types.Object]c15Bound{}, parent: env, call: call}
-		w.bindRecv(ce, c15Bound{expr: x.X, env: fenv})
-		w.bindArgs(ce, env, call)
-		return f, ce
-	case *ast.Ident:
-		fn, _ := w.info.Uses[x].(*types.Func)
-		if fn == nil || fn.Pkg() != w.pk.Types {
-			return nil, nil
-		}
-		f := w.fn(fn)
-		if f == nil {
-			return nil, nil
-		}
-		ce := &c15Env{fn: f, bind: map[types.Object]c15Bound{}, parent: env, call: call}
-		w.bindArgs(ce, env, call)
-		return f, ce
-	case *ast.FuncLit:
-		f := w.litFn(x)
-		if f == nil {
-			return nil, nil
-		}
-		ce := &c15Env{fn: f, bind: map[types.Object]c15Bound{}, parent: env, call: call, lex: fenv}
-		w.bindArgs(ce, env, call)
-		return f, ce
-	}
-	return nil, nil
-}
-
-// resolveFuncValue follows a function-typed identifier through parameter bindings and single definitions to the
-// expression that forms the value, with the environment that expression is written in.
-func (w *c15World) resolveFuncValue(env *c15Env, e ast.Expr) (*c15Env, ast.Expr) {
-	for i := 0; i < 10; i++ {
-		e = ast.Unparen(e)
-		id, ok := e.(*ast.Ident)
-		if !ok {
-			break
-		}
-		ob := objOf(w.info, id)
-		if _, isVar := ob.(*types.Var); !isVar {
-			break
-		}
-		env = env.scope(ob)
-		if b, ok := env.lookup(ob); ok {
-			env, e = b.env, b.expr
-			continue
-		}
-		if d := env.fn.singleDef(ob); d != nil {
-			e = d
-			continue
-		}
-		break
-	}
-	return env, e
-}
-
-// litFn returns the analysed form of a function literal (its own CFG; captured variables resolve through c15Env.lex).
-func (w *c15World) litFn(lit *ast.FuncLit) *c15Fn {
-	if f, ok := w.lits[lit]; ok {
-		return f
-	}
-	sig, _ := w.info.TypeOf(lit).(*types.Signature)
-	if sig == nil || lit.Body == nil {
-		w.lits[lit] = nil
+	if len(ds) != zero+1 {
 		return nil
 	}
-	decl := &ast.FuncDecl{Name: &ast.Ident{NamePos: lit.Pos(), Name: "func literal"}, Type: lit.Type, Body: lit.Body}
-	obj := types.NewFunc(lit.Pos(), w.pk.Types, "func literal at "+w.r.P.Rel(lit.Pos()), sig)
-	f := &c15Fn{w: w, fi: &FuncInfo{Pkg: w.pk, Decl: decl, Obj: obj}}
-	f.g = newCFG(w.info, lit.Body)
-	f.dom = dominators(f.g)
-	f.par = parentsOf(w.r.P, f.fi)
-	f.computeDefs()
-	w.lits[lit] = f
-	return f
-}
-
-// samePkgCallee returns the analysed callee of a static call into package osm (nil otherwise).
-func (w *c15World) samePkgCallee(call *ast.CallExpr) *c15Fn {
-	fn := callee(w.info, call)
-	if fn == nil || fn.Pkg() != w.pk.Types {
+	var d ast.Expr
+	nils := 0
+	for _, x := range ds {
+		if x == nil {
+			nils++
+		} else {
+			d = x
+		}
+	}
+	if d == nil || nils != zero {
 		return nil
 	}
-	return w.fn(fn)
-}
-
-// ---------------------------------------------------------------- paths
-
-type c15Step struct {
-	field *types.Var // field selection
-	idx   *c15Path   // index by a variable path
-	k     int64      // constant index (isK)
-	isK   bool
-}
-
-type c15Path struct {
-	root  types.Object
-	steps []c15Step
-}
-
-func (p *c15Path) with(s c15Step) *c15Path {
-	q := &c15Path{root: p.root, steps: make([]c15Step, 0, len(p.steps)+1)}
-	q.steps = append(q.steps, p.steps...)
-	q.steps = append(q.steps, s)
-	return q
-}
-
-func (p *c15Path) eq(q *c15Path) bool {
-	if p == nil || q == nil || p.root != q.root || len(p.steps) != len(q.steps) {
-		return false
-	}
-	for i := range p.steps {
-		a, b := p.steps[i], q.steps[i]
-		switch {
-		case a.field != nil || b.field != nil:
-			if a.field != b.field {
-				return false
-			}
-		case a.isK || b.isK:
-			if a.isK != b.isK || a.k != b.k {
-				return false
-			}
-		default:
-			if !a.idx.eq(b.idx) {
-				return false
-			}
-		}
-	}
-	return true
-}
-
-// prefix returns the path without its last n steps.
-func (p *c15Path) prefix(n int) *c15Path {
-	if p == nil || len(p.steps) < n {
-		return nil
-	}
-	return &c15Path{root: p.root, steps: p.steps[:len(p.steps)-n]}
-}
-
-func (p *c15Path) last() *c15Step {
-	if p == nil || len(p.steps) == 0 {
-		return nil
-	}
-	return &p.steps[len(p.steps)-1]
-}
-
-// String renders a path for diagnostics and construct keys. A root that is a receiver/parameter is rendered by its
-// type ("Way.Nodes"), a local root by its type only ("local orb.LineString"): names of locals never enter a key.
-func (p *c15Path) String() string {
-	if p == nil {
-		return "?"
-	}
-	var b strings.Builder
-	t := p.root.Type()
-	if pt, ok := t.(*types.Pointer); ok {
-		t = pt.Elem()
-	}
-	tn := types.TypeString(t, func(pk *types.Package) string {
-		if pk.Path() == core.ModulePath {
-			return ""
-		}
-		return pk.Name()
-	})
-	b.WriteString(tn)
-	for _, s := range p.steps {
-		switch {
-		case s.field != nil:
-			b.WriteString("." + s.field.Name())
-		case s.isK:
-			fmt.Fprintf(&b, "[%d]", s.k)
-		default:
-			b.WriteString("[" + s.idx.String() + "]")
-		}
-	}
-	return b.String()
-}
-
-func c15RefType(t types.Type) bool {
-	switch t.Underlying().(type) {
-	case *types.Pointer, *types.Slice, *types.Map:
-		return true
-	}
-	return false
-}
-
-// pathOf normalises e (written in env.fn) to a path rooted in a variable of the outermost function of env.
-// write=true is for assignment targets: a by-value copy of a struct/array (`n := w.Nodes[i]`, a by-value parameter)
-// is then a different object and is not looked through; pointers, `&E` aliases, slices and maps are.
-func (w *c15World) pathOf(env *c15Env, e ast.Expr, write bool) *c15Path {
-	return w.pathOfD(env, e, write, 0)
-}
-
-func (w *c15World) pathOfD(env *c15Env, e ast.Expr, write bool, depth int) *c15Path {
-	if depth > 16 || e == nil {
-		return nil
-	}
-	for {
-		switch x := e.(type) {
-		case *ast.ParenExpr:
-			e = x.X
-			continue
-		case *ast.StarExpr:
-			e = x.X
-			continue
-		case *ast.UnaryExpr:
-			if x.Op == token.AND {
-				e = x.X
-				continue
-			}
-			return nil
-		}
-		break
-	}
-	switch x := e.(type) {
-	case *ast.Ident:
-		o := objOf(w.info, x)
-		v, isVar := o.(*types.Var)
-		if !isVar {
-			return nil
-		}
-		if env != nil {
-			env = env.scope(o)
-			if b, ok := env.lookup(o); ok {
-				if !write || c15RefType(v.Type()) {
-					if p := w.pathOfD(b.env, b.expr, write, depth+1); p != nil {
-						return p
-					}
-				}
-				return &c15Path{root: o}
-			}
-			if d := env.fn.singleDef(o); d != nil {
-				rhs := ast.Unparen(d)
-				_, isAddr := rhs.(*ast.UnaryExpr)
-				if isAddr || !write || c15RefType(v.Type()) {
-					if p := w.pathOfD(env, rhs, write, depth+1); p != nil {
-						return p
-					}
-				}
-			}
-		}
-		return &c15Path{root: o}
-	case *ast.SelectorExpr:
-		if f := selField(w.info, x); f != nil {
-			p := w.pathOfD(env, x.X, write, depth+1)
-			if p == nil {
-				return nil
-			}
-			return p.with(c15Step{field: f})
-		}
-		if v, ok := w.info.Uses[x.Sel].(*types.Var); ok && !v.IsField() {
-			return &c15Path{root: v} // package-qualified variable
-		}
-		return nil
-	case *ast.IndexExpr:
-		p := w.pathOfD(env, x.X, write, depth+1)
-		if p == nil {
-			return nil
-		}
-		if k, ok := constInt(w.info, x.Index); ok {
-			return p.with(c15Step{k: k, isK: true})
-		}
-		ip := w.pathOfD(env, x.Index, false, depth+1)
-		if ip == nil {
-			return nil
-		}
-		return p.with(c15Step{idx: ip})
+	if d.Pos() < pos && posDominates(f.g, f.dom, d.Pos(), pos) {
+		return d
 	}
 	return nil
 }
 
-// c15IsUpdateField reports whether step s selects the named field of osm.Update.
-func c15IsUpdateField(s *c15Step, name string) bool {
-	if s == nil || s.field == nil || s.field.Name() != name {
-		return false
-	}
-	return s.field.Pkg() != nil && s.field.Pkg().Path() == core.ModulePath && c15FieldOwnerIsUpdate(s.field)
-}
-
-// c15FieldOwnerIsUpdate: the field object is one of the fields of struct type osm.Update.
-func c15FieldOwnerIsUpdate(f *types.Var) bool {
-	obj := f.Pkg().Scope().Lookup("Update")
-	if obj == nil {
-		return false
-	}
-	st, ok := obj.Type().Underlying().(*types.Struct)
-	if !ok {
-		return false
-	}
-	for i := 0; i < st.NumFields(); i++ {
-		if st.Field(i) == f {
-			return true
-		}
-	}
-	return false
-}
-
-// c15IsUpdateIndexPath reports whether p is `<update value>.Index`.
-func c15IsUpdateIndexPath(p *c15Path) bool { return c15IsUpdateField(p.last(), "Index") }
-
-// ---------------------------------------------------------------- purity / effects
-
-// pureExpr: evaluating e has no side effect (builtins len/cap/min/max, conversions, methods of time.Time, and
-// single-expression helpers of package osm that are themselves pure).
-func (w *c15World) pureExpr(e ast.Node, depth int) bool {
-	if e == nil {
-		return true
-	}
-	ok := true
-	ast.Inspect(e, func(n ast.Node) bool {
-		if !ok {
-			return false
-		}
-		switch x := n.(type) {
-		case *ast.FuncLit:
-			ok = false
-		case *ast.UnaryExpr:
-			if x.Op == token.ARROW {
-				ok = false
-			}
-		case *ast.CallExpr:
-			if tv, found := w.info.Types[x.Fun]; found && tv.IsType() {
-				return true
-			}
-			switch builtinName(w.info, x) {
-			case "len", "cap", "min", "max":
-				return true
-			case "":
-			default:
-				ok = false
-				return false
-			}
-			fn := callee(w.info, x)
-			if fn == nil {
-				ok = false
-				return false
-			}
-			if recv := fn.Type().(*types.Signature).Recv(); recv != nil && namedPath(recv.Type()) == "time.Time" {
-				return true
-			}
-			if f := w.samePkgCallee(x); f != nil && depth < 4 {
-				if ret := singleReturnExpr(f.fi); ret != nil && w.pureExpr(ret, depth+1) {
-					return true
-				}
-			}
-			ok = false
-		}
-		return ok
-	})
-	return ok
-}
-
-// isEffect reports whether CFG node n changes state that outlives the region given by scope (a loop body or a
-// function body): anything but pure conditions and pure definitions of locals declared inside scope.
-func (w *c15World) isEffect(scope ast.Node, n ast.Node) bool {
-	localIn := func(e ast.Expr) bool {
-		id, ok := ast.Unparen(e).(*ast.Ident)
-		if !ok {
-			return false
-		}
-		if id.Name == "_" {
-			return true
-		}
-		o := objOf(w.info, id)
-		return o != nil && scope != nil && scope.Pos() <= o.Pos() && o.Pos() < scope.End()
-	}
-	switch x := n.(type) {
-	case ast.Expr:
-		return !w.pureExpr(x, 0)
-	case *ast.AssignStmt:
-		for _, l := range x.Lhs {
-			if !localIn(l) {
-				return true
-			}
-		}
-		for _, rh := range x.Rhs {
-			if !w.pureExpr(rh, 0) {
-				return true
-			}
-		}
-		return false
-	case *ast.IncDecStmt:
-		return !localIn(x.X)
-	case *ast.DeclStmt:
-		return !w.pureExpr(x, 0)
-	case *ast.ExprStmt:
-		return !w.pureExpr(x.X, 0)
-	case *ast.ReturnStmt, *ast.EmptyStmt, *ast.LabeledStmt, *ast.BranchStmt:
-		return false
-	}
-	return true
-}
-
-// ---------------------------------------------------------------- loops over Updates
-
-type c15Loop struct {
-	fn    *c15Fn
-	stmt  ast.Stmt // *ast.RangeStmt or *ast.ForStmt
-	x     ast.Expr // the Updates value
-	key   types.Object
-	val   types.Object
-	body  *ast.BlockStmt
-	head  *cfg.Block // target of continue / back edge
-	entry *cfg.Block // first block of the body
-	done  *cfg.Block // target of break / normal exit
-}
-
-func (l *c15Loop) pos() token.Pos { return l.stmt.Pos() }
-
-// loopsIn finds the loops over an osm.Updates value in f (function literals are not entered: their bodies are not
-// in f's CFG).
-func (w *c15World) loopsIn(f *c15Fn) []*c15Loop {
-	if f.loopsDone {
-		return f.loops
-	}
-	out := w.loopsIn1(f)
-	f.loops, f.loopsDone = out, true
-	return out
-}
-
-func (w *c15World) loopsIn1(f *c15Fn) []*c15Loop {
-	var out []*c15Loop
-	inspectNoLit(f.fi.Decl.Body, func(n ast.Node) bool {
-		switch s := n.(type) {
-		case *ast.RangeStmt:
-			if !isUpdatesType(w.info.TypeOf(s.X)) {
-				return true
-			}
-			l := &c15Loop{fn: f, stmt: s, x: s.X, body: s.Body}
-			if s.Key != nil {
-				if id, ok := s.Key.(*ast.Ident); ok && id.Name != "_" {
-					l.key = objOf(w.info, s.Key)
-				}
-			}
-			if s.Value != nil {
-				if id, ok := s.Value.(*ast.Ident); ok && id.Name != "_" {
-					l.val = objOf(w.info, s.Value)
-				}
-			}
-			for _, b := range f.g.Blocks {
-				if b.Stmt != s {
-					continue
-				}
-				switch b.Kind {
-				case cfg.KindRangeLoop:
-					l.head = b
-				case cfg.KindRangeBody:
-					l.entry = b
-				case cfg.KindRangeDone:
-					l.done = b
-				}
-			}
-			out = append(out, l)
-		case *ast.ForStmt:
-			// for i := …; i < len(X); i++
-			if s.Cond == nil || s.Post == nil {
-				return true
-			}
-			lhs, op, rhs, ok := cmpNorm(s.Cond)
-			if !ok || op != token.LSS {
-				return true
-			}
-			arg := lenCallArg(w.info, rhs)
-			if arg == nil || !isUpdatesType(w.info.TypeOf(arg)) {
-				return true
-			}
-			iv := objOf(w.info, lhs)
-			inc, ok := s.Post.(*ast.IncDecStmt)
-			if iv == nil || !ok || inc.Tok != token.INC || objOf(w.info, inc.X) != iv {
-				return true
-			}
-			if countAssignsTo(w.info, s.Body, iv, s.Body.Pos(), s.Body.End()) > 0 {
-				return true
-			}
-			l := &c15Loop{fn: f, stmt: s, x: arg, key: iv, body: s.Body}
-			for _, b := range f.g.Blocks {
-				if b.Stmt != s {
-					continue
-				}
-				switch b.Kind {
-				case cfg.KindForPost:
-					l.head = b
-				case cfg.KindForBody:
-					l.entry = b
-				case cfg.KindForDone:
-					l.done = b
-				}
-			}
-			out = append(out, l)
-		}
-		return true
-	})
-	return out
-}
-
-// inBody reports whether block b belongs to the loop body.
-func (l *c15Loop) inBody(b *cfg.Block) bool {
-	if b == l.entry {
-		return true
-	}
-	if b == l.head || b == l.done || b.Stmt == nil {
-		return false
-	}
-	return l.body.Pos() <= b.Stmt.Pos() && b.Stmt.End() <= l.body.End()
-}
-
-// contains reports whether node n lies in the loop body.
-func (l *c15Loop) contains(n ast.Node) bool {
-	return l.body.Pos() <= n.Pos() && n.End() <= l.body.End()
-}
-
-// isElem reports whether path p denotes the current element of the loop (the range value, X[key], or a copy /
-// pointer alias of either).
-func (w *c15World) isElem(env *c15Env, l *c15Loop, p *c15Path) bool {
-	if p == nil {
-		return false
-	}
-	if l.val != nil && p.root == l.val && len(p.steps) == 0 {
-		return true
-	}
-	if l.key != nil {
-		if st := p.last(); st != nil && st.idx != nil && st.idx.root == l.key && len(st.idx.steps) == 0 {
-			xp := w.pathOf(env, l.x, false)
-			return xp != nil && xp.eq(p.prefix(1))
-		}
-	}
-	return false
-}
-
-// ---------------------------------------------------------------- oracle
-
-type c15Ord int
-
-const (
-	c15OrdNone   c15Ord = iota
-	c15OrdBefore        // u.Timestamp is before t
-	c15OrdEqual         // u.Timestamp equals t
-	c15OrdAfter         // u.Timestamp is after t
-)
-
-func (o c15Ord) String() string {
-	return [...]string{"at or before t (list already filtered)", "before t", "equal to t", "after t"}[o]
-}
-
-// c15Oracle gives the value of the atomic conditions under one abstract input.
-type c15Oracle struct {
-	w    *c15World
-	loop *c15Loop // the loop whose element is meant (nil: any osm.Update value)
-	lenv *c15Env  // environment of the loop's function
-	ord  c15Ord   // relative order of the element's Timestamp and the API's time parameter
-
-	rng     int      // +1: every `Index` vs `len` comparison is in range, -1: out of range, 0: unknown
-	rngIdx  *c15Path // when set, rng speaks only about this index path against len(rngCont)
-	rngCont *c15Path
-	reverse int // +1: <update>.Reverse holds, -1: does not, 0: unknown
-
-	errObj types.Object // with errVal: this error variable is non-nil (+1) / nil (-1)
-	errVal int
-
-	sumDepth     int        // nesting of helper summaries
-	timeAtoms    int        // number of atoms decided through the time order
-	unknownTimes []ast.Expr // atoms that mention the element's Timestamp or t but were not understood
-}
-
-// timeRole classifies e as the element's timestamp ('U'), the API's time parameter ('T') or neither (0).
-func (o *c15Oracle) timeRole(env *c15Env, e ast.Expr) byte {
-	w := o.w
-	p := w.pathOf(env, e, false)
-	if p == nil {
-		return 0
-	}
-	if c15IsUpdateField(p.last(), "Timestamp") {
-		if o.loop == nil || w.isElem(o.lenv, o.loop, p.prefix(1)) {
-			return 'U'
-		}
-		return 0
-	}
-	if len(p.steps) == 0 && namedPath(p.root.Type()) == "time.Time" {
-		rf := env.root().fn
-		if rf.isInput(p.root) && len(rf.defs[p.root]) == 0 {
-			return 'T'
-		}
-	}
-	return 0
-}
-
-// mentionsTime: e reads a Timestamp of an update or a time.Time parameter (used to tell "test not understood"
-// from "no test").
-func (o *c15Oracle) mentionsTime(env *c15Env, e ast.Expr) bool {
-	found := false
-	ast.Inspect(e, func(n ast.Node) bool {
-		x, ok := n.(ast.Expr)
-		if !ok || found {
-			return !found
-		}
-		switch x.(type) {
-		case *ast.Ident, *ast.SelectorExpr:
-			if r := o.timeRole(env, x); r != 0 {
-				found = true
-			}
-		}
-		return !found
-	})
-	return found
-}
-
-func (o *c15Oracle) atom(env *c15Env, e ast.Expr) c15Tri {
-	w := o.w
-	e = ast.Unparen(e)
-	// time order
-	if o.ord != c15OrdNone {
-		if v, ok := o.timeAtom(env, e); ok {
-			o.timeAtoms++
-			return v
-		}
-	}
-	// comparisons
-	if l, op, r, ok := cmpNorm(e); ok {
-		// <update>.Index against len(C); operands may be parameters of a helper bound to these (`i >= n`)
-		if o.rng != 0 {
-			lenv, lx := w.resolveExpr(env, l)
-			renv, rx := w.resolveExpr(env, r)
-			match := func(ienv *c15Env, I ast.Expr, cenv *c15Env, C ast.Expr) bool {
-				ip := w.pathOf(ienv, I, false)
-				if ip == nil || !c15IsUpdateIndexPath(ip) {
-					return false
-				}
-				if o.rngIdx != nil {
-					return ip.eq(o.rngIdx) && w.pathOf(cenv, C, false).eq(o.rngCont)
-				}
-				return true
-			}
-			if la := lenCallArg(w.info, lx); la != nil && match(renv, rx, lenv, la) { // len(C) op I
-				switch op {
-				case token.LEQ: // len(C) <= I : out of range
-					return c15Of(o.rng < 0)
-				case token.LSS: // len(C) < I : false when in range
-					if o.rng > 0 {
-						return c15F
-					}
-				}
-				return c15U
-			}
-			if ra := lenCallArg(w.info, rx); ra != nil && match(lenv, lx, renv, ra) { // I op len(C)
-				switch op {
-				case token.LSS: // I < len(C) : in range
-					return c15Of(o.rng > 0)
-				case token.LEQ: // I <= len(C) : true when in range
-					if o.rng > 0 {
-						return c15T
-					}
-				}
-				return c15U
-			}
-		}
-		// err != nil / err == nil
-		if op == token.EQL || op == token.NEQ {
-			var other ast.Expr
-			switch {
-			case isNilIdent(r):
-				other = l
-			case isNilIdent(l):
-				other = r
-			}
-			if other != nil {
-				if o.errObj != nil && o.errVal != 0 {
-					if p := w.pathOf(env, other, false); p != nil && p.root == o.errObj && len(p.steps) == 0 {
-						return c15Of((op == token.NEQ) == (o.errVal > 0))
-					}
-				}
-				// an error variable whose only value is the result of a helper of package osm: summarise the
-				// helper under the same abstract input
-				if s := o.errValueOf(env, other); s != 0 {
-					return c15Of((op == token.NEQ) == (s > 0))
-				}
-			}
-		}
-	} else if o.reverse != 0 {
-		// <update>.Reverse (comparisons with true/false are unfolded by eval)
-		if p := w.pathOf(env, e, false); p != nil && c15IsUpdateField(p.last(), "Reverse") {
-			return c15Of(o.reverse > 0)
-		}
-	}
-	// an atom about the element's Timestamp or t that is none of the understood comparisons
-	if o.ord != c15OrdNone && o.mentionsTime(env, e) {
-		o.unknownTimes = append(o.unknownTimes, e)
-	}
-	return c15U
-}
-
-// errValueOf: e is an error-typed expression; +1 = certainly non-nil, -1 = certainly nil, 0 = unknown, under the
-// oracle's abstract input. Understood: nil, a local whose single definition is a call, and calls of functions of
-// package osm (summarised by walking their CFG under the same oracle).
-func (o *c15Oracle) errValueOf(env *c15Env, e ast.Expr) int {
-	w := o.w
-	e = ast.Unparen(e)
-	if isNilIdent(e) {
-		return -1
-	}
-	if id, ok := e.(*ast.Ident); ok {
-		ob := objOf(w.info, id)
-		env = env.scope(ob)
-		if b, bound := env.lookup(ob); bound {
-			return o.errValueOf(b.env, b.expr)
-		}
-		d := env.fn.singleDef(ob)
-		if d == nil {
-			// a named result assigned exactly once, by an assignment that dominates this use
-			f := env.fn
-			if ds := f.defs[ob]; f.isParam(ob) && !f.isInput(ob) && len(ds) == 1 && ds[0] != nil && posDominates(f.g, f.dom, ds[0].Pos(), id.Pos()) && ds[0].Pos() < id.Pos() {
-				d = ds[0]
-			}
-		}
-		if d == nil {
-			return 0
-		}
-		e = ast.Unparen(d)
-	}
-	call, ok := e.(*ast.CallExpr)
-	if !ok {
-		return 0
-	}
-	f, ce := w.calleeOf(env, call)
-	if f == nil || !c15ReturnsError(f) || o.sumDepth >= 3 {
-		return 0
-	}
-	if f.fi.Obj.Type().(*types.Signature).Results().Len() != 1 {
-		return 0
-	}
-	o.sumDepth++
-	defer func() { o.sumDepth-- }()
-	wk := w.walk(f.g.Blocks[0], 0, c15WalkOpt{env: ce, oracle: o})
-	if wk.implicit || len(wk.returns) == 0 {
-		return 0
-	}
-	res := 0
-	for i, ret := range wk.returns {
-		v := 0
-		if len(ret.Results) == 1 {
-			if w.retKind(f, ret) == c15RetFailure {
-				v = +1
-			} else {
-				v = o.errValueOf(ce, ret.Results[0])
-			}
-		}
-		if v == 0 || (i > 0 && v != res) {
-			return 0
-		}
-		res = v
-	}
-	return res
-}
-
-// timeAtom decides A.After(B) / A.Before(B) / A.Equal(B) / A.Compare(B) <op> k where {A,B} = {element timestamp, t}.
-func (o *c15Oracle) timeAtom(env *c15Env, e ast.Expr) (c15Tri, bool) {
-	w := o.w
-	// sign of (u.Timestamp - t)
-	sign := map[c15Ord]int{c15OrdBefore: -1, c15OrdEqual: 0, c15OrdAfter: +1}[o.ord]
-	timeCall := func(x ast.Expr) (string, int, bool) { // method name, sign of (recv - arg)
-		call, ok := ast.Unparen(x).(*ast.CallExpr)
-		if !ok || len(call.Args) != 1 {
-			return "", 0, false
-		}
-		fn := callee(w.info, call)
-		if fn == nil {
-			return "", 0, false
-		}
-		recv := fn.Type().(*types.Signature).Recv()
-		if recv == nil || namedPath(recv.Type()) != "time.Time" {
-			return "", 0, false
-		}
-		sel, ok := ast.Unparen(call.Fun).(*ast.SelectorExpr)
-		if !ok {
-			return "", 0, false
-		}
-		ra, rb := o.timeRole(env, sel.X), o.timeRole(env, call.Args[0])
-		switch {
-		case ra == 'U' && rb == 'T':
-			return fn.Name(), sign, true
-		case ra == 'T' && rb == 'U':
-			return fn.Name(), -sign, true
-		}
-		return "", 0, false
-	}
-	if name, s, ok := timeCall(e); ok {
-		switch name {
-		case "After":
-			return c15Of(s > 0), true
-		case "Before":
-			return c15Of(s < 0), true
-		case "Equal":
-			return c15Of(s == 0), true
-		}
-		return c15U, false
-	}
-	if be, ok := e.(*ast.BinaryExpr); ok {
-		cmp := func(a int64, op token.Token, b int64) (c15Tri, bool) {
-			switch op {
-			case token.LSS:
-				return c15Of(a < b), true
-			case token.LEQ:
-				return c15Of(a <= b), true
-			case token.GTR:
-				return c15Of(a > b), true
-			case token.GEQ:
-				return c15Of(a >= b), true
-			case token.EQL:
-				return c15Of(a == b), true
-			case token.NEQ:
-				return c15Of(a != b), true
-			}
-			return c15U, false
-		}
-		if name, s, ok := timeCall(be.X); ok && name == "Compare" {
-			if k, ok := constInt(w.info, be.Y); ok {
-				return cmp(int64(s), be.Op, k)
-			}
-		}
-		if name, s, ok := timeCall(be.Y); ok && name == "Compare" {
-			if k, ok := constInt(w.info, be.X); ok {
-				return cmp(k, be.Op, int64(s))
-			}
-		}
-	}
-	return c15U, false
-}
-
-// resolveExpr follows identifiers that are parameters bound by the call environment or locals with a single pure
-// definition, and returns the defining expression with the environment it is written in.
-func (w *c15World) resolveExpr(env *c15Env, e ast.Expr) (*c15Env, ast.Expr) {
-	for i := 0; i < 8; i++ {
-		e = ast.Unparen(e)
-		id, ok := e.(*ast.Ident)
-		if !ok {
-			break
-		}
-		ob := objOf(w.info, id)
-		if ob == nil {
-			break
-		}
-		env = env.scope(ob)
-		if b, ok := env.lookup(ob); ok {
-			env, e = b.env, b.expr
-			continue
-		}
-		if d := env.fn.singleDef(ob); d != nil && w.pureExpr(d, 0) {
-			e = d
-			continue
-		}
-		break
-	}
-	return env, e
-}
-
-// eval evaluates a boolean expression written in env.fn: connectives, constants, boolean locals with a single
-// definition, parameters bound by the call environment, and calls of single-expression helpers are looked through;
-// everything else is an atom for the oracle.
-func (w *c15World) eval(env *c15Env, e ast.Expr, o *c15Oracle, depth int) c15Tri {
-	e = ast.Unparen(e)
-	if depth > 12 {
-		return c15U
-	}
-	if tv, ok := w.info.Types[e]; ok && tv.Value != nil {
-		if s := tv.Value.String(); s == "true" {
-			return c15T
-		} else if s == "false" {
-			return c15F
-		}
-	}
-	switch x := e.(type) {
-	case *ast.BinaryExpr:
-		switch x.Op {
-		case token.LAND:
-			return c15And(w.eval(env, x.X, o, depth+1), w.eval(env, x.Y, o, depth+1))
-		case token.LOR:
-			return c15Or(w.eval(env, x.X, o, depth+1), w.eval(env, x.Y, o, depth+1))
-		case token.EQL, token.NEQ:
-			// B == true, B != false ...
-			if tv, ok := w.info.Types[x.Y]; ok && tv.Value != nil && (tv.Value.String() == "true" || tv.Value.String() == "false") {
-				v := w.eval(env, x.X, o, depth+1)
-				if (tv.Value.String() == "true") != (x.Op == token.EQL) {
-					v = c15Not(v)
-				}
-				return v
-			}
-		}
-	case *ast.UnaryExpr:
-		if x.Op == token.NOT {
-			return c15Not(w.eval(env, x.X, o, depth+1))
-		}
-	case *ast.Ident:
-		ob := objOf(w.info, x)
-		env = env.scope(ob)
-		if b, ok := env.lookup(ob); ok {
-			return w.eval(b.env, b.expr, o, depth+1)
-		}
-		if d := env.fn.singleDef(ob); d != nil && w.pureExpr(d, 0) {
-			return w.eval(env, d, o, depth+1)
-		}
-	case *ast.CallExpr:
-		if f, ce := w.calleeOf(env, x); f != nil {
-			if ret := singleReturnExpr(f.fi); ret != nil {
-				return w.eval(ce, ret, o, depth+1)
-			}
-		}
-	}
-	return o.atom(env, e)
-}
-
-// ---------------------------------------------------------------- walking the CFG
-
-type c15Walk struct {
-	visited  map[ast.Node]bool
-	nodes    []ast.Node // in visiting order
-	blocks   map[*cfg.Block]bool
-	returns  []*ast.ReturnStmt
-	implicit bool // fell off the end of the function
-	head     bool // came back to the loop head (continue / end of body)
-	done     bool // left the loop through its exit (break)
-	escape   ast.Node
-	dead     ast.Node // a path ends in panic
-	barrier  bool     // some path was stopped by the barrier
-}
-
-type c15WalkOpt struct {
-	env     *c15Env
-	loop    *c15Loop // nil: whole-function walk
-	oracle  *c15Oracle
-	barrier func(ast.Node) bool // paths stop at (and do not execute) the first node for which barrier holds
-}
-
-// walk explores fn's CFG from node index startIdx of block start.
-func (w *c15World) walk(start *cfg.Block, startIdx int, opt c15WalkOpt) *c15Walk {
-	res := &c15Walk{visited: map[ast.Node]bool{}, blocks: map[*cfg.Block]bool{}}
-	type item struct {
-		b *cfg.Block
-		i int
-	}
-	work := []item{{start, startIdx}}
-	seen := map[*cfg.Block]bool{}
-	for len(work) > 0 {
-		it := work[len(work)-1]
-		work = work[:len(work)-1]
-		b := it.b
-		if it.i == 0 {
-			if seen[b] {
-				continue
-			}
-			seen[b] = true
-		}
-		res.blocks[b] = true
-		stopped := false
-		var last ast.Node
-		for i := it.i; i < len(b.Nodes); i++ {
-			n := b.Nodes[i]
-			if opt.barrier != nil && opt.barrier(n) {
-				res.barrier = true
-				stopped = true
-				break
-			}
-			if !res.visited[n] {
-				res.visited[n] = true
-				res.nodes = append(res.nodes, n)
-			}
-			last = n
-			if ret, ok := n.(*ast.ReturnStmt); ok {
-				res.returns = append(res.returns, ret)
-				stopped = true
-				break
-			}
-		}
-		if stopped {
-			continue
-		}
-		var next []*cfg.Block
-		switch len(b.Succs) {
-		case 0:
-			if last != nil && c15IsPanic(w.info, last) {
-				res.dead = last
-			} else {
-				res.implicit = true
-			}
-			continue
-		case 2:
-			v := c15U
-			if cond := condOf(w.info, b); cond != nil && opt.oracle != nil {
-				v = w.eval(opt.env, cond, opt.oracle, 0)
-			}
-			switch v {
-			case c15T:
-				next = b.Succs[:1]
-			case c15F:
-				next = b.Succs[1:]
-			default:
-				next = b.Succs
-			}
-		default:
-			next = b.Succs
-		}
-		for _, s := range next {
-			if l := opt.loop; l != nil {
-				switch {
-				case s == l.head:
-					res.head = true
-					continue
-				case s == l.done:
-					res.done = true
-					continue
-				case !l.inBody(s):
-					if len(s.Nodes) > 0 {
-						res.escape = s.Nodes[0]
-					} else {
-						res.escape = l.stmt
-					}
-					continue
-				}
-			}
-			work = append(work, item{s, 0})
-		}
-	}
-	return res
-}
-
-func c15IsPanic(info *types.Info, n ast.Node) bool {
-	es, ok := n.(*ast.ExprStmt)
-	if !ok {
-		return false
-	}
-	call, ok := es.X.(*ast.CallExpr)
-	return ok && builtinName(info, call) == "panic"
-}
-
-// effects returns the effect nodes among the visited nodes.
-func (w *c15World) effects(scope ast.Node, wk *c15Walk) []ast.Node {
-	var out []ast.Node
-	for _, n := range wk.nodes {
-		if w.isEffect(scope, n) {
-			out = append(out, n)
-		}
-	}
-	return out
-}
-
-// ---------------------------------------------------------------- returns
-
-const (
-	c15RetSuccess = iota // no error result, or the error result is nil / may be nil
-	c15RetFailure        // the error result is known to be non-nil
-)
-
-// retKind classifies a return statement of f by its error result.
-func (w *c15World) retKind(f *c15Fn, ret *ast.ReturnStmt) int {
-	sig := f.fi.Obj.Type().(*types.Signature)
-	n := sig.Results().Len()
-	if n == 0 || !types.Identical(sig.Results().At(n-1).Type(), types.Universe.Lookup("error").Type()) {
-		return c15RetSuccess
-	}
-	var e ast.Expr
-	switch {
-	case len(ret.Results) == n:
-		e = ast.Unparen(ret.Results[n-1])
-	case len(ret.Results) == 0 && sig.Results().At(n-1).Name() != "":
-		// bare return: the named error result decides
-		for id, o := range w.info.Defs {
-			if o == types.Object(sig.Results().At(n-1)) {
-				e = id
-			}
-		}
-	}
-	if e == nil {
-		return c15RetSuccess // a multi-value call
-	}
-	switch x := e.(type) {
-	case *ast.UnaryExpr:
-		if x.Op == token.AND {
-			return c15RetFailure
-		}
-	case *ast.CompositeLit:
-		return c15RetFailure
-	case *ast.CallExpr:
-		fn := callee(w.info, x)
-		if isPkgFunc(fn, "errors", "New") || isPkgFunc(fn, "fmt", "Errorf") {
-			return c15RetFailure
-		}
-	case *ast.Ident:
-		o := objOf(w.info, x)
-		if o == nil || isNilIdent(x) {
-			return c15RetSuccess
-		}
-		facts := factsAtPos(w.info, f.g, f.dom, ret.Pos())
-		if knownNonNil(facts, func(y ast.Expr) bool { return objOf(w.info, y) == o }) != nil {
-			// the variable must not be reassigned between the test and the return
-			return c15RetFailure
-		}
-	}
-	return c15RetSuccess
-}
-
-// ---------------------------------------------------------------- deep traversal from an API function
-
-// reach lists root and the unexported helpers it (transitively) calls, each once, in call order.
-func (w *c15World) reach(root *c15Fn) []*c15Env {
-	seen := map[*c15Fn]bool{root: true}
-	var out []*c15Env
-	var visit func(env *c15Env)
-	visit = func(env *c15Env) {
-		out = append(out, env)
-		if env.depth() >= 4 {
-			return
-		}
-		inspectNoLit(env.fn.fi.Decl.Body, func(n ast.Node) bool {
-			call, ok := n.(*ast.CallExpr)
-			if !ok {
-				return true
-			}
-			f, ce := w.calleeOf(env, call)
-			if f == nil || f.fi.Obj.Exported() || seen[f] {
-				return true
-			}
-			seen[f] = true
-			visit(ce)
-			return true
-		})
-	}
-	visit(w.rootEnv(root))
-	return out
-}
-
-// c15LoopSite is a loop over Updates reached from a root.
-type c15LoopSite struct {
-	env  *c15Env
-	loop *c15Loop
-}
-
-// timeParams returns the time.Time parameters of f.
-func (f *c15Fn) timeParams() []*types.Var {
-	var out []*types.Var
-	sig := f.fi.Obj.Type().(*types.Signature)
-	for i := 0; i < sig.Params().Len(); i++ {
-		if namedPath(sig.Params().At(i).Type()) == "time.Time" {
-			if _, isPtr := sig.Params().At(i).Type().(*types.Pointer); !isPtr {
-				out = append(out, sig.Params().At(i))
-			}
-		}
-	}
-	return out
-}
-
-// nodeAt returns the CFG node of f that contains pos, with its block and index.
-func (f *c15Fn) nodeAt(pos token.Pos) (ast.Node, *cfg.Block, int) {
-	b, i := blockOf(f.g, pos)
-	if b == nil {
-		return nil, nil, -1
-	}
-	return b.Nodes[i], b, i
-}
-
-func c15Within(outer, inner ast.Node) bool {
-	return outer != nil && inner != nil && outer.Pos() <= inner.Pos() && inner.End() <= outer.End()
-}
+func (f *c15Fn) name() string { return f.fi.Name() }
